@@ -5,7 +5,8 @@ from vf import core, lib, ref, spaces
 
 PID = "C01"
 LEVEL = "exploration"
-RULE = ("every game of the named spaces (value product x every weak order, ranks and scores encodings) x 5 model "
+RULE = ("every game of the named spaces (value product x every weak order, ranks and scores encodings; quick adds thin slices of "
+        "5-8 teams: T5|V2 with all 541 weak orders, T6|V2 / D7 / D8 (deviation bound 1) with every tie pattern x generator permutation) x 5 model "
         "classes x configs K0-K10, each run through the real rate() on fresh objects and compared player by "
         "player with the interval reference model; non-trivial = some player's posterior differs bitwise from "
         "the prior AND was compared against the reference")
@@ -31,18 +32,23 @@ def plan(ctx):
                 for sp in ("S2", "P2", "T3"):
                     out.append((kind, K, sp, "mp"))
         else:
-            for sp in ("S2", "P2", "P3", "T3", "T4"):
+            for sp in ("S2", "P2", "P3", "T3", "T4", "T5|V2", "T6|V2", "D7b1", "D8b1"):
                 out.append((kind, "K0", sp, "float"))
             for K in spaces.ALLK[1:]:
                 for sp in ("S2", "T3"):
                     out.append((kind, K, sp, "float"))
+            for K in ("K6", "K7", "K8"):  # custom gamma callbacks with >= 4 teams
+                out.append((kind, K, "T4|V3", "float"))
             for sp in ("S2", "T3|V6"):
                 out.append((kind, "K0", sp, "mp"))
     return out
 
 
-PARTS = {"S2": 4, "P2": 6, "P3": 8, "T3": 8, "T4": 24, "T5": 64, "T6": 256, "D7": 24, "D8": 64, "D8x8": 64,
+PARTS = {"T5|V2": 4, "T6|V2": 8, "D7b1": 4, "D8b1": 8, "T4|V3": 2, "S2": 4, "P2": 6, "P3": 8, "T3": 8, "T4": 24, "T5": 64, "T6": 256, "D7": 24, "D8": 64, "D8x8": 64,
          "D2x16": 1, "T3|V6": 2}
+
+
+THIN = ("T6|V2",)  # every tie pattern x generator permutation instead of all 4683 weak orders
 
 
 def units(ctx):
@@ -106,7 +112,7 @@ def run_unit(unit, ctx):
     acc = core.Acc()
     for game in spaces.sharded(spaces.value_games(sp, kind, cfg), k, parts):
         n = len(game)
-        for ranks in spaces.outcomes_for(n):
+        for ranks in spaces.outcomes_for(n, thin=sp in THIN):
             for enc in encodings(sp):
                 acc.evals += 1
                 msgs, nt = eval_case(kind, cfg, game, ranks, enc, arith)
